@@ -1,7 +1,8 @@
 #!/usr/bin/env python3
-"""Runs every 'populate' (class, field) pair of C11 once on the tree given by --repo and writes
-populate_triage.json: which pairs round-trip (outcome ok, no violation) and what the others do.
-The committed whitelist vsim/props/c11_populate_ok.json is derived from it (see DESIGN.md)."""
+"""Runs every 'populate' (class, field) pair of C11 on the tree given by argv[1], with plain values and with XML
+metacharacters in every free-text value of the synthesized element, and writes populate_triage.json: which pairs
+round-trip (outcome ok, no violation) and what the others do.  The committed whitelists
+vsim/props/c11_populate_ok.json and c11_populate_meta_ok.json are derived from it (see DESIGN.md)."""
 import json, os, sys
 HERE = os.path.dirname(os.path.dirname(os.path.abspath(__file__)))
 sys.path.insert(0, HERE)
@@ -10,19 +11,34 @@ repo = sys.argv[1] if len(sys.argv) > 1 else "/repo"
 os.environ["VERIF_C11_ALL_POPULATE"] = "1"
 worker.init_worker(repo, {"backend": "c"}, "C11")
 from vsim.props import c11
-from vsim.core.seeds import run_seed
-res = {}
-pairs = c11.STATE["pairs"]
-for i, (base, key, vclass) in enumerate(pairs):
-    t = c11.gen(run_seed("C11", 0, i), i, "quick")
-    if not t.get("pert") or t["pert"]["kind"] != "populate":
-        continue
-    t["entries"] = ["load_pdx_file", "load_pdx_file"]; t["index_pos"] = ["keep", "keep"]; t["prelude"] = None
-    r = c11.execute(t)
-    out = [k for k in r["counters"] if k.startswith("outcome_")][0][8:]
-    res[f"{key[0]}.{key[1]}"] = {"base": base, "outcome": out, "violations": [[v["oracle"], v["sig"].get("what") or v["sig"].get("exc")] for v in r["violations"]]}
+res = {"plain": {}, "meta": {}}
+seen = set()
+for base in sorted(c11.STATE["targets"]):
+    for t in c11.STATE["targets"][base]:
+        key = (t["cls"], t["field"])
+        if t["kind"] != "populate" or key in seen:
+            continue
+        seen.add(key)
+        for mode in ("plain", "meta"):
+            trace = {"base": base, "prelude": None, "norefresh": False,
+                     "pert": {"path": t["path"], "cls": t["cls"], "field": t["field"], "type": t["type"], "kind": "populate",
+                              "vclass": mode, "n": 0, "alts": []},
+                     "env": {"tz": ["UTC", "UTC"], "relative_paths": False},
+                     "entries": ["load_pdx_file", "load_pdx_file"], "orders": [1, 2], "index_pos": ["keep", "keep"],
+                     "clock": [1_700_000_000.0, "none", 0.0]}
+            r = c11.execute(trace)
+            out = [k for k in r["counters"] if k.startswith("outcome_")][0][8:]
+            res[mode][f"{key[0]}.{key[1]}"] = {"base": base, "outcome": out,
+                                               "violations": [[v["oracle"], v["sig"].get("what") or v["sig"].get("exc"),
+                                                               str(v["detail"])[:160]] for v in r["violations"]]}
 json.dump(res, open(os.path.join(HERE, "populate_triage.json"), "w"), indent=1, sort_keys=True)
-ok = sorted(k for k, v in res.items() if v["outcome"] == "ok" and not v["violations"])
-json.dump(ok, open(os.path.join(HERE, "vsim", "props", "c11_populate_ok.json"), "w"), indent=1)
-print(len(res), "pairs;", len(ok), "round-trip;", sum(1 for v in res.values() if v["outcome"] == "discarded"), "discarded;",
-      sum(1 for v in res.values() if v["violations"]), "with violations")
+for mode, fn in (("plain", "c11_populate_ok.json"), ("meta", "c11_populate_meta_ok.json")):
+    ok = sorted(k for k, v in res[mode].items() if v["outcome"] == "ok" and not v["violations"])
+    json.dump(ok, open(os.path.join(HERE, "vsim", "props", fn), "w"), indent=1)
+    print(mode, len(res[mode]), "pairs;", len(ok), "round-trip;", sum(1 for v in res[mode].values() if v["outcome"] == "discarded"),
+          "discarded;", sum(1 for v in res[mode].values() if v["violations"]), "with violations")
+print("fail only with metacharacters:")
+for k, v in sorted(res["meta"].items()):
+    p = res["plain"].get(k, {})
+    if (v["outcome"] != "ok" or v["violations"]) and p.get("outcome") == "ok" and not p.get("violations"):
+        print("  ", k, v["outcome"], v["violations"][:1])
